@@ -78,6 +78,7 @@ class Profile:
     p_latefill: int = 6                 # schedulers created empty, wired, then filled
     p_block: int = 0                    # a job has a blocking (synchronous) section
     p_late_critical: int = 8
+    p_cexc: int = 4                     # a job that answers a cancellation by raising
     p_flagform: int = 10
     p_big: int = 8                      # % of schedulers that may have up to big_members
     big_members: int = 9
@@ -114,6 +115,8 @@ def _draw_job(draw, prof, wild, wide=False):
         extra['ret'] = draw(st.sampled_from(['none', 'zero', 'false', 'empty', 'future-done',
                                              'future-pending', 'exc-object', 'tuple2',
                                              'tuple0', 'list', 'dict']))
+    if chance(draw, prof.p_cexc):
+        extra['cexc'] = True
     if chance(draw, prof.p_block):
         extra['b'] = draw(st.sampled_from([0.5, 1, 2]))
     if extra.get('late_critical'):
@@ -326,7 +329,7 @@ def assign_ids(spec):
 
 
 PLAIN = dict(p_label=0, p_exc=0, p_ret=0, p_late_attrs=0, p_watch=0, p_inspect=0, p_prelude=0,
-             p_latefill=0, p_rerun=0, p_block=0, p_wide=0, p_late_critical=0, p_flagform=0)
+             p_latefill=0, p_rerun=0, p_block=0, p_wide=0, p_late_critical=0, p_flagform=0, p_cexc=0)
 
 
 @st.composite
